@@ -161,9 +161,142 @@ def h_multiget(items: List[int], raw: str, c_b: bytes, dup: bool) -> bool:
     return run(body_multiget, items, raw, c_b, dup)
 
 
+# ------------------------------------------------------------------ after a write history, exhaustive over the menu
+SPECIAL = "s p#\u00e9.ics"
+PRE = ["none", "rewrite-a", "delete-a", "put-b", "delete-a-put-n", "astral-a", "rewrite-a-back", "put-special"]
+
+
+def body_multiget_menu(pre, i1, dup):
+    """The report is issued AFTER a short write history through the same long-lived app (rewrite, delete, create,
+    delete-and-create, text outside the BMP, rewrite back to the first content, a member whose name needs
+    quoting): for every pair of hrefs from the menu (second one looped inside), every distinct href is answered
+    once, an existing member of the right kind with the CURRENT etag and the bytes the history wrote (taken from
+    the specification state, not from the server), anything else with not-found and without data."""
+    from xv.core import picks, untraced
+    import urllib.parse
+    import posixpath
+    pre, i1, dup = picks((pre, i1, dup), (len(PRE), 14, "bool"))
+    with untraced():
+        prefix, card, wsgi = ctx.PART
+        P = prefix.rstrip("/")
+        S = {"a.ics": b"xa"}
+        A = {"c.vcf": b"v1"}
+        mweb.fresh_world(S, A)
+        app = mweb.make_app()
+
+        def put(name, body):
+            r = mweb.call(app, "PUT", mweb.CAL + "/" + name, body=body, content_type="text/calendar", prefix=prefix, wsgi=wsgi)
+            if r.status_class == "2xx":
+                S[name] = body
+            return r.status_class == "2xx"
+
+        def delete(name):
+            r = mweb.call(app, "DELETE", mweb.CAL + "/" + name, prefix=prefix, wsgi=wsgi)
+            if r.status_class == "2xx":
+                del S[name]
+            return r.status_class == "2xx"
+
+        # a first report warms whatever the reporters / the store cache across requests
+        warm = Wd.ET.Element("{%s}calendar-multiget" % CALNS)
+        Wd.ET.SubElement(Wd.ET.SubElement(warm, "{DAV:}prop"), "{%s}calendar-data" % CALNS)
+        Wd.ET.SubElement(warm, "{DAV:}href").text = P + mweb.CAL + "/a.ics"
+        mweb.call(app, "REPORT", mweb.CAL + "/", xml=warm, content_type="text/xml", headers=[("Depth", "0")], prefix=prefix, wsgi=wsgi)
+        how = PRE[pre]
+        okh = True
+        if how == "rewrite-a":
+            okh = put("a.ics", b"xaq")
+        elif how == "delete-a":
+            okh = delete("a.ics")
+        elif how == "put-b":
+            okh = put("b.ics", b"xb")
+        elif how == "delete-a-put-n":
+            okh = delete("a.ics") and put("n.ics", b"xa")
+        elif how == "astral-a":
+            okh = put("a.ics", b"xa" + "caf\u00e9 \U0001f382".encode("utf-8"))
+        elif how == "rewrite-a-back":
+            okh = put("a.ics", b"xaq") and put("a.ics", b"xa")
+        elif how == "put-special":
+            okh = put(SPECIAL, b"xs")
+        if not okh:
+            return (False, "history-refused")
+        menu = _menu(P, "zz") + [P + mweb.CAL + "/" + urllib.parse.quote(SPECIAL)]
+        ns = CARDNS if card else CALNS
+        dataname = "{%s}%s-data" % (ns, "address" if card else "calendar")
+        want_ct = "text/vcard" if card else "text/calendar"
+        for i2 in range(len(menu)):
+            hrefs = [menu[i1], menu[i2]] + ([menu[i1]] if dup else [])
+            el = Wd.ET.Element("{%s}%s-multiget" % (ns, "addressbook" if card else "calendar"))
+            prop = Wd.ET.SubElement(el, "{DAV:}prop")
+            Wd.ET.SubElement(prop, "{DAV:}getetag")
+            Wd.ET.SubElement(prop, dataname)
+            for h in hrefs:
+                Wd.ET.SubElement(el, "{DAV:}href").text = h
+            r = mweb.call(app, "REPORT", (mweb.AB if card else mweb.CAL) + "/", xml=el, content_type="text/xml",
+                          headers=[("Depth", "0")], prefix=prefix, wsgi=wsgi)
+            if r.kind != "multistatus":
+                return (False, "no-multistatus")
+            decoded = []
+            for h in hrefs:
+                # reference reading of an href (RFC 3986): the path component, percent-decoded once - NOT the
+                # server's own read_href_element
+                d = urllib.parse.unquote(urllib.parse.urlsplit(h).path)
+                if d not in decoded:
+                    decoded.append(d)
+            answered = {}
+            for st in r.statuses:
+                if st.href in answered:
+                    return (False, "answered-twice")
+                answered[st.href] = st
+            if set(answered) != set(decoded):
+                return (False, "wrong-set")
+            for d in decoded:
+                # the specification's answer for this href
+                exp = None
+                if d is not None and (not P or d == P or d.startswith(P + "/")):
+                    path = posixpath.normpath(d[len(P):] or "/")
+                    coll, name = posixpath.split(path)
+                    state = S if coll == mweb.CAL else A if coll == mweb.AB else None
+                    if state is not None and name in state and (name.endswith(".vcf") == card):
+                        exp = state[name]
+                st = answered[d]
+                data = mweb.prop_text(st, dataname)
+                etag = mweb.prop_text(st, "{DAV:}getetag")
+                if exp is None:
+                    notfound = (st.status or "").startswith("404") or _prop_status(st, dataname) == "404"
+                    if not notfound or data is not None:
+                        return (False, "miss-answered-with-data")
+                else:
+                    from xv.env import mstore
+                    if data != exp.decode("utf-8") or etag != '"' + mstore.expected_etag("tree", exp) + '"':
+                        return (False, "hit-wrong")
+        return (True, how)
+
+
+def h_multiget_menu(pre: int, i1: int, dup: bool) -> bool:
+    """
+    pre: 0 <= pre < len(PRE) and 0 <= i1 < 14
+    post: _
+    """
+    return run(body_multiget_menu, pre, i1, dup)
+
+
 _B = {"quick": {"nhref": 2, "rlen": 2}, "thorough": {"nhref": 4, "rlen": 3}}
 
 HARNESSES = [
+    Harness("multiget_menu", h_multiget_menu, body_multiget_menu,
+            classes=[("rewrite-a", ("/", False, False)), ("astral-a", ("/dav/", False, True)), ("put-special", ("/dav/", False, True))],
+            parts={"quick": [("/", False, False), ("/dav/", False, True), ("/dav/", True, False), ("/a/b/", True, True)],
+                   "thorough": [(p, c, w) for p in ("/", "/dav/", "/a/b/") for c in (False, True) for w in (False, True)]},
+            budget={"quick": 120, "thorough": 600},
+            describe="multiget AFTER a write history through the same app (8 histories: rewrite, delete, create, "
+                     "delete-and-create, astral text, rewrite back, a name needing quoting) for every pair of hrefs from a "
+                     "menu of 14 (+ duplicate): one response per distinct href; hits carry the current etag and the bytes "
+                     "of the SPECIFICATION state, misses are not-found without data; exhaustive over the menu; part = "
+                     "(route prefix, addressbook?, WSGI?)",
+            encodes=["xandikos.davcommon.MultiGetReporter.report", "xandikos.webdav._get_resources_by_hrefs",
+                     "xandikos.webdav.href_to_path", "xandikos.webdav.read_href_element", "xandikos.webdav.PutMethod.handle",
+                     "xandikos.webdav.DeleteMethod.handle", "xandikos.caldav.CalendarDataProperty.get_value_ext",
+                     "xandikos.carddav.AddressDataProperty.get_value_ext", "xandikos.web.open_store_from_path"]),
     Harness("multiget", h_multiget, body_multiget,
             classes=[("hits:0", ("/", False)), ("hits:1", ("/dav/", False)), ("hits:2", ("/", False)),
                      ("hits:1", ("/dav/", True))],
